@@ -369,17 +369,18 @@ Variables (r : raw) (rl : rule).
 Hypothesis HN : normalize r = Ok rl.
 Hypothesis Y : wfam r.
 
-Lemma weekly_days_w : forall k cnt s, at_pass_w r rl k cnt s -> 0 <= k -> wlo r k + 6 <= max_ord ->
+Lemma weekly_days_w : forall k cnt s, at_pass_w r rl k cnt s -> 0 <= k ->
   let y := c_year s in
-  let st := wcur r k - jan1 y in let en := wlo r k + 7 - jan1 y in
+  let st := wcur r k - jan1 y in let en := wend r k - jan1 y in
   exists ds ds' f,
     getdayset rl (c_ii s) y (c_month s) (c_day s) = Ok (ds, st, en) /\
     filter_loop rl (c_ii s) (py_slice ds st en) ds false = Ok (ds', f) /\
     somes (py_slice ds' st en) = filter (fun i => day_ok r (jan1 y + i)) (zrange st en) /\
     1 <= jan1 y + st /\ jan1 y + en <= max_ord + 1.
 Proof.
-  intros k cnt s (Av & Ao & Aw & Ar & At & Ac) Hk Hmax y st en.
+  intros k cnt s (Av & Ao & Aw & Ar & At & Ac) Hk y st en.
   fold y in Av, Ao, Ar.
+  assert (Hmax : 1 <= wcur r k <= max_ord) by (pose proof (ord_of_ymd_range _ _ _ Av) as RR; rewrite Ao in RR; lia).
   destruct Y as [HW Hfr Hp Hsp Hs He].
   pose proof (normalize_freq r rl HN) as Nfr. rewrite Hfr in Nfr.
   pose proof (normalize_wkst r rl HN) as Nwk.
@@ -396,9 +397,9 @@ Proof.
   destruct (wdayset_correct rl (c_ii s) y y (c_month s) (c_day s) F ltac:(rewrite Nwk; exact Hwk) Av
               ltac:(rewrite Ao; exact Hi)) as (ds & suf & E1 & Eds & _).
   rewrite Ao in E1, Eds. fold st in E1, Eds.
-  assert (EL : st + week_rest (weekday_of_ord (jan1 y)) (wkst rl) st = en).
+  assert (EL : st + Z.min (week_rest (weekday_of_ord (jan1 y)) (wkst rl) st) (max_ord + 1 - (jan1 y + st)) = en).
   { unfold week_rest. rewrite <- wd_shift. replace (jan1 y + st) with (wcur r k) by (unfold st; lia).
-    rewrite Nwk, Ew. unfold st, en. lia. }
+    rewrite Nwk, Ew. unfold st, en, wend. lia. }
   rewrite EL in E1, Eds.
   assert (G : getdayset rl (c_ii s) y (c_month s) (c_day s) = Ok (ds, st, en)).
   { unfold getdayset. rewrite Nfr. change (WEEKLY =? YEARLY) with false. change (WEEKLY =? MONTHLY) with false.
@@ -407,16 +408,16 @@ Proof.
   assert (HRj : forall i, st <= i < en -> day_rejected rl (c_ii s) i = Ok (rej i)).
   { intros i Hi'. destruct (Z_lt_ge_dec i (year_len y)) as [Hlt|Hge].
     - apply (day_filter_correct_guarded r rl y (c_month s) (c_ii s) i HN HW Hp Hs (or_introl He) Hy Ar). lia.
-    - apply (day_filter_ext r rl y (c_month s) (c_ii s) i HN HW Hp Hs He Hy Ar); [unfold st, en in *; lia|].
+    - apply (day_filter_ext r rl y (c_month s) (c_ii s) i HN HW Hp Hs He Hy Ar); [unfold st, en, wend in *; lia|].
       unfold used_index, shape_of. cbn [sh_ylen sh_ywd].
       rewrite <- wd_shift.
       replace (jan1 y + i) with (wlo r k + (jan1 y + i - wlo r k)) by lia.
       rewrite wd_shift, (wlo_weekday r k Hwk).
-      rewrite (week_off (r_wkst r) (jan1 y + i - wlo r k) Hwk) by (unfold st, en in *; lia).
-      unfold st, en in *. lia. }
+      rewrite (week_off (r_wkst r) (jan1 y + i - wlo r k) Hwk) by (unfold st, en, wend in *; lia).
+      unfold st, en, wend in *. lia. }
   set (pre := repeat (@None Z) (Z.to_nat st)).
   assert (Lp : Z.of_nat (length pre) = st) by (unfold pre; rewrite repeat_length; lia).
-  assert (Hse : st <= en) by (unfold st, en; lia).
+  assert (Hse : st <= en) by (unfold st, en, wend; lia).
   assert (SL : py_slice ds st en = map Some (zrange st en)).
   { rewrite Eds. fold pre. pose proof (py_slice_mid pre (map Some (zrange st en)) suf) as P.
     rewrite Lp in P. rewrite map_length in P. unfold zrange in P at 2. rewrite zrange_nat_length in P.
@@ -434,16 +435,16 @@ Proof.
     replace (st + Z.of_nat (Z.to_nat (en - st))) with en in P by lia. exact P. }
   exists ds, ds', (existsb rej (zrange st en)). split; [exact G|]. split; [exact FL|]. split.
   - rewrite SL', somes_map_mark. apply filter_ext'. intros x. unfold rej. apply negb_involutive.
-  - unfold st, en. lia.
+  - unfold st, en, wend. lia.
 Qed.
 
-Lemma weekly_step_quiet : forall k s, (exists cnt, at_pass_w r rl k cnt s) -> 0 <= k -> wlo r k + 6 <= max_ord ->
+Lemma weekly_step_quiet : forall k s, (exists cnt, at_pass_w r rl k cnt s) -> 0 <= k -> True ->
   match step rl s with inl s' => exists cnt', at_pass_w r rl (k + 1) cnt' s' | inr (_, t) => quiet t end.
 Proof.
-  intros k s (cnt & A) Hk Hmax.
+  intros k s (cnt & A) Hk _.
   pose proof A as (Av & Ao & Aw & Ar & At & Ac).
   pose proof Y as [HW Hfr Hp Hsp Hs He].
-  destruct (weekly_days_w k cnt s A Hk Hmax) as (ds & ds' & f & E1 & E2 & E3 & B1 & B2).
+  destruct (weekly_days_w k cnt s A Hk) as (ds & ds' & f & E1 & E2 & E3 & B1 & B2).
   destruct (index_in_year _ _ _ Av) as (_ & _ & Hy).
   pose proof (rebuild_ii_for rl _ _ (c_ii s) Hy Ar) as F.
   assert (Q : match step rl s with inl _ => True | inr (_, t) => quiet t end).
@@ -456,14 +457,13 @@ Proof.
     - intros c1 out1.
       destruct (weekly_advance r rl k cnt s f c1 out1 HN Y A Hk) as [(s' & EA & _)|(EA & _)];
         [left; exists s'; exact EA|right; exact EA]. }
-  pose proof (weekly_step r rl k cnt s HN Y A Hk Hmax) as HS.
+  pose proof (weekly_step r rl k cnt s HN Y A Hk) as HS.
   split_step HS Q.
 Qed.
 
-Theorem weekly_quiet_nosetpos : forall limit n,
-  (n <> 0%nat -> wlo r (Z.of_nat n - 1) + 6 <= max_ord) -> quiet (snd (iterate rl limit n)).
+Theorem weekly_quiet_nosetpos : forall limit n, quiet (snd (iterate rl limit n)).
 Proof.
-  intros limit n Hn.
+  intros limit n.
   pose proof Y as [HW Hfr Hp Hsp Hs He].
   destruct (normalize_misc r rl HN) as (Ni & Nsp & Ny & Nm & Nd & Nc & Nu).
   pose proof (normalize_freq r rl HN) as Nfr. rewrite Hfr in Nfr.
@@ -492,10 +492,9 @@ Proof.
     split; [exact V|]. split; [rewrite C0; reflexivity|]. split; [rewrite C0; reflexivity|].
     split; [exact R0|]. split; reflexivity. }
   assert (Q : quiet (snd (run rl limit n s0))).
-  { apply (run_quiet rl (fun k s => exists cnt, at_pass_w r rl k cnt s) (fun k => wlo r k + 6 <= max_ord)
+  { apply (run_quiet rl (fun k s => exists cnt, at_pass_w r rl k cnt s) (fun _ => True)
              weekly_step_quiet limit n 0 s0 A0 ltac:(lia)).
-    intros j Hj. pose proof (Hn ltac:(lia)) as B.
-    pose proof (wlo_mono r j (Z.of_nat n - 1) Hitv ltac:(lia)). lia. }
+    intros j Hj. exact I. }
   destruct (run rl limit n s0) as [out t]. exact Q.
 Qed.
 End WeeklyQuiet.
@@ -505,15 +504,15 @@ Section WeeklySetposQuiet.
 Variables (r : raw) (rl : rule).
 Hypothesis HN : normalize r = Ok rl.
 Hypothesis Y : wfam_s r.
-Hypothesis Hws : 1 <= ws0 r.
 
-Lemma weekly_step_quiet_s : forall k s, (exists cnt, at_pass_ws r rl k cnt s) -> 0 <= k -> wlo r k + 6 <= max_ord ->
+Lemma weekly_step_quiet_s : forall k s, (exists cnt, at_pass_ws r rl k cnt s) -> 0 <= k -> True ->
   match step rl s with inl s' => exists cnt', at_pass_ws r rl (k + 1) cnt' s' | inr (_, t) => quiet t end.
 Proof.
-  intros k s (cnt & A) Hk Hmax.
+  intros k s (cnt & A) Hk _.
   pose proof A as (Av & Ao & Aw & Ar & At & Ac).
   pose proof Y as [HW Hfr Hp Hs He].
-  destruct (weekly_days_s r rl HN Y k cnt s A Hk Hmax) as (ds & ds' & f & E1 & E2 & E3).
+  assert (Hmax : 1 <= wbeg r k <= max_ord) by (pose proof (ord_of_ymd_range _ _ _ Av) as RR; rewrite Ao in RR; lia).
+  destruct (weekly_days_s r rl HN Y k cnt s A Hk) as (ds & ds' & f & E1 & E2 & E3).
   destruct (index_in_year _ _ _ Av) as (Hi & Ho & Hy). rewrite Ao in Hi, Ho.
   pose proof (rebuild_ii_for rl _ _ (c_ii s) Hy Ar) as F.
   assert (Q : match step rl s with inl _ => True | inr (_, t) => quiet t end).
@@ -521,19 +520,19 @@ Proof.
              (ssorted_filter_zrange _ _ _)).
     - intros i Hi'. apply filter_In in Hi'. destruct Hi' as [Hi' _]. unfold zrange in Hi'.
       pose proof (In_zrange_nat_bounds _ _ _ Hi') as Bi. rewrite (f_yo _ _ F). unfold from_ordinal.
-      replace ((1 <=? jan1 (c_year s) + i) && (jan1 (c_year s) + i <=? max_ord)) with true by lia. reflexivity.
+      replace ((1 <=? jan1 (c_year s) + i) && (jan1 (c_year s) + i <=? max_ord)) with true by (unfold wend in *; lia).
+      reflexivity.
     - exact At.
     - intros c1 out1.
       destruct (weekly_advance_s r rl HN Y k cnt s f c1 out1 A Hk) as [(s' & EA & _)|(EA & _)];
         [left; exists s'; exact EA|right; exact EA]. }
-  pose proof (weekly_step_s r rl HN Y Hws k cnt s A Hk Hmax) as HS.
+  pose proof (weekly_step_s r rl HN Y k cnt s A Hk I) as HS.
   split_step HS Q.
 Qed.
 
-Theorem weekly_quiet_setpos : forall limit n, r_bysetpos r <> None ->
-  (n <> 0%nat -> wlo r (Z.of_nat n - 1) + 6 <= max_ord) -> quiet (snd (iterate rl limit n)).
+Theorem weekly_quiet_setpos : forall limit n, r_bysetpos r <> None -> quiet (snd (iterate rl limit n)).
 Proof.
-  intros limit n Hsp Hn.
+  intros limit n Hsp.
   pose proof Y as [HW Hfr Hp Hs He].
   destruct (normalize_misc r rl HN) as (Ni & Nsp & Ny & Nm & Nd & Nc & Nu).
   pose proof (normalize_freq r rl HN) as Nfr. rewrite Hfr in Nfr.
@@ -560,18 +559,20 @@ Proof.
   assert (EB : sp_ord0 r - back = ws0 r) by reflexivity.
   assert (EW0 : wlo r 0 = ws0 r) by (unfold wlo; lia).
   assert (PRO : exists y0 m0 d0,
-     (if negb (back =? 0) && (1 <=? sp_ord0 r - back)
-      then let '(y', m', d') := ymd_of_ord (sp_ord0 r - back) in (y', m', d', r_wkst r)
-      else (r_y r, r_m r, r_d r, weekday (r_y r) (r_m r) (r_d r))) = (y0, m0, d0, r_wkst r) /\
-     valid_ymd y0 m0 d0 = true /\ ord_of_ymd y0 m0 d0 = ws0 r).
-  { destruct (back =? 0) eqn:E0; cbn [negb andb].
-    - exists (r_y r), (r_m r), (r_d r). split; [|split; [exact V|]].
-      + f_equal. unfold back, weekday in *. fold (sp_ord0 r) in *.
-        pose proof (weekday_of_ord_range (sp_ord0 r)). lia.
+     (if negb (back =? 0)
+      then let '(y', m', d') := ymd_of_ord (Z.max (sp_ord0 r - back) 1) in
+           (y', m', d', weekday_of_ord (Z.max (sp_ord0 r - back) 1))
+      else (r_y r, r_m r, r_d r, weekday (r_y r) (r_m r) (r_d r))) = (y0, m0, d0, weekday_of_ord (wbeg r 0)) /\
+     valid_ymd y0 m0 d0 = true /\ ord_of_ymd y0 m0 d0 = wbeg r 0).
+  { assert (EB0 : Z.max (sp_ord0 r - back) 1 = wbeg r 0) by (unfold wbeg; lia).
+    destruct (back =? 0) eqn:E0; cbn [negb andb].
+    - assert (EQ : wbeg r 0 = sp_ord0 r) by lia.
+      exists (r_y r), (r_m r), (r_d r). split; [|split; [exact V|]].
+      + rewrite EQ. reflexivity.
       + fold (sp_ord0 r). lia.
-    - replace (1 <=? sp_ord0 r - back) with true by lia. rewrite EB.
-      pose proof (ymd_of_ord_valid (ws0 r) ltac:(unfold back in *; lia)) as VV.
-      destruct (ymd_of_ord (ws0 r)) as [[y0 m0] d0]. destruct VV as [V1 V2].
+    - rewrite EB0.
+      pose proof (ymd_of_ord_valid (wbeg r 0) ltac:(unfold back in *; lia)) as VV.
+      destruct (ymd_of_ord (wbeg r 0)) as [[y0 m0] d0]. destruct VV as [V1 V2].
       exists y0, m0, d0. split; [reflexivity|]. split; assumption. }
   destruct PRO as (y0 & m0 & d0 & EP & V0 & O0).
   destruct (index_in_year _ _ _ V0) as (_ & _ & Hy0).
@@ -582,13 +583,12 @@ Proof.
   set (s0 := mkSt _ _ _ _ _ _ _ _ _ _ _).
   assert (A0 : exists cnt, at_pass_ws r rl 0 cnt s0).
   { exists (r_count r). unfold at_pass_ws, s0. cbn [c_year c_month c_day c_weekday c_ii c_timeset c_count].
-    split; [exact V0|]. split; [rewrite O0, EW0; reflexivity|]. split; [reflexivity|].
+    split; [exact V0|]. split; [exact O0|]. split; [reflexivity|].
     split; [exact R0'|]. split; reflexivity. }
   assert (Q : quiet (snd (run rl limit n s0))).
-  { apply (run_quiet rl (fun k s => exists cnt, at_pass_ws r rl k cnt s) (fun k => wlo r k + 6 <= max_ord)
+  { apply (run_quiet rl (fun k s => exists cnt, at_pass_ws r rl k cnt s) (fun _ => True)
              weekly_step_quiet_s limit n 0 s0 A0 ltac:(lia)).
-    intros j Hj. pose proof (Hn ltac:(lia)) as B.
-    pose proof (wlo_mono r j (Z.of_nat n - 1) Hitv ltac:(lia)). lia. }
+    intros j Hj. exact I. }
   destruct (run rl limit n s0) as [out t]. exact Q.
 Qed.
 End WeeklySetposQuiet.
@@ -702,13 +702,12 @@ Qed.
 Theorem rrule_no_exception_coarse : forall r rl limit n,
   normalize r = Ok rl -> coarse_guard r n -> forall e, snd (iterate rl limit n) <> TRaised e.
 Proof.
-  intros r rl limit n HN (HW & Hs & He & [Hf|[Hf|[(Hf & Hp & Hw & Hn)|[Hf Hp]]]]).
+  intros r rl limit n HN (HW & Hs & He & [Hf|[Hf|[(Hf & Hp)|[Hf Hp]]]]).
   - apply (yearly_quiet r rl limit n HN). constructor; assumption.
   - apply (monthly_quiet r rl limit n HN). constructor; assumption.
   - destruct (r_bysetpos r) as [poss|] eqn:EB.
-    + apply (weekly_quiet_setpos r rl HN ltac:(constructor; assumption) (Hw ltac:(discriminate)) limit n);
-        [rewrite EB; discriminate|exact Hn].
-    + apply (weekly_quiet_nosetpos r rl HN ltac:(constructor; assumption) limit n Hn).
+    + apply (weekly_quiet_setpos r rl HN ltac:(constructor; assumption) limit n). rewrite EB. discriminate.
+    + apply (weekly_quiet_nosetpos r rl HN ltac:(constructor; assumption) limit n).
   - apply (daily_quiet2 r rl HN ltac:(constructor; assumption) limit n).
 Qed.
 
@@ -746,6 +745,17 @@ Proof.
      match ol with Some l => Ok (Some (sort_set l)) | None => Ok (Some [dd]) end =
      Ok (Some (eff_times ol dd))).
   { intros ol dd. destruct ol; reflexivity. }
+  (* fix 55654b4: 0 is not a member of BYMONTHDAY (spec_wf), nor is the start's day *)
+  match goal with |- context [if memZ 0 ?l then _ else _] => assert (EZ : memZ 0 l = false) end.
+  { match goal with |- memZ 0 (opt_list (if ?c then _ else _)) = false => destruct c end.
+    - cbn [opt_list]. unfold memZ. cbn [existsb].
+      match goal with H : valid_ymd _ _ _ = true |- _ => unfold valid_ymd in H end. lia.
+    - destruct (r_bymonthday r) as [l|]; [|reflexivity]. cbn [opt_list]. unfold memZ.
+      destruct (existsb (Z.eqb 0) l) eqn:EX; [|reflexivity].
+      apply existsb_exists in EX. destruct EX as (x & Hx & E0).
+      match goal with H : all_opt (Some l) (fun x => negb (x =? 0)) = true |- _ =>
+        cbn [all_opt] in H; rewrite forallb_forall in H; specialize (H x Hx) end. lia. }
+  rewrite EZ. cbn [bind].
   rewrite !E1. cbn [bind opt_list].
   rewrite (time_product_valid _ _ _ RH RM RS). cbn [bind]. eexists. reflexivity.
 Qed.
